@@ -2,6 +2,7 @@ package clientgen
 
 import (
 	"fmt"
+	"strconv"
 
 	"google.golang.org/protobuf/compiler/protogen"
 	"google.golang.org/protobuf/reflect/protoreflect"
@@ -114,7 +115,7 @@ func (g *Generator) generateEnumLookupMaps(gf *protogen.GeneratedFile, enum *pro
 		if jsonValue == "" {
 			jsonValue = string(value.Desc.Name())
 		}
-		gf.P(value.GoIdent.GoName, ": \"", jsonValue, "\",")
+		gf.P(value.GoIdent.GoName, ": ", strconv.Quote(jsonValue), ",")
 	}
 	gf.P("}")
 	gf.P()
@@ -126,7 +127,7 @@ func (g *Generator) generateEnumLookupMaps(gf *protogen.GeneratedFile, enum *pro
 		if jsonValue == "" {
 			jsonValue = string(value.Desc.Name())
 		}
-		gf.P("\"", jsonValue, "\": ", value.GoIdent.GoName, ",")
+		gf.P(strconv.Quote(jsonValue), ": ", value.GoIdent.GoName, ",")
 	}
 	for _, value := range enum.Values {
 		customValue := annotations.GetEnumValueMapping(value)
